@@ -51,7 +51,7 @@ package spiffe
 //@   ensures [C19.get.initok] s.spiffe.initok ==> (result != nil && result1 == nil)
 //@   at recv#0 assert [C19.ready.nolock] chdone[s.spiffe.readyCh] || !held(s.spiffe.lock)
 //@   at recv#0 ghost chdone = update(chdone, s.spiffe.readyCh, true)
-//@   at recv#0 label R
+//@   at call RLock#0 label R
 //@   replay template spiffeready
 //@   replay val ready = chdone[s.spiffe.readyCh]
 
